@@ -282,6 +282,13 @@ def special_names(spec, r):
         f["name"] = ren.get(f["name"], f["name"])
     for c in spec["ctcs"]:
         c["ast"] = S.rename_ast(c["ast"], ren)
+    # one owner with a relation over {Ja, Jb} and a relation (same cardinality) over the single child "Ja Jb"
+    owner = r.choice(feats)
+    tag = str(len(feats))
+    if ("Ja" + tag) not in names:
+        card = r.choice([(1, 1), (0, 1)])
+        owner["rels"].append({"min": card[0], "max": card[1], "children": [{"name": "Ja" + tag, "rels": []}, {"name": "Jb" + tag, "rels": []}]})
+        owner["rels"].append({"min": card[0], "max": card[1], "children": [{"name": f"Ja{tag} Jb{tag}", "rels": []}]})
     new = S.feature_names(spec)
     used = [n for n in new if fold_twin(n)]
     for k, n in enumerate(used[:2]):
